@@ -27,43 +27,44 @@ HugeN == Con(MkHuge(0 - 1, 5))
 F1(f) == Force(Bi(f))
 F2(f) == Force(Force(Bi(f)))
 
-Atoms ==
-    CASE Profile \in {"core", "closure"} -> {I(0), Err}
-      [] Profile = "lambda" -> {I(0), I(1), U, Err, Bi("addInteger"), F1("ifThenElse")}
-      [] Profile = "constr" -> {I(0), I(2), B(TRUE), U, Err, L(TInt, <<MkInt(7)>>), L(TInt, <<>>),
-                                Con(MkPair(TInt, TBool, MkInt(4), MkBool(FALSE)))}
-      [] Profile = "arith" -> {I(0), I(1), I(0 - 7), I(2), HugeP, HugeN, Err, U,
+\* a SEQUENCE: TLC cannot normalise a set whose elements carry differently typed payloads under the same field name
+AtomSeq ==
+    CASE Profile \in {"core", "closure"} -> <<I(0), Err>>
+      [] Profile = "lambda" -> <<I(0), I(1), U, Err, Bi("addInteger"), F1("ifThenElse")>>
+      [] Profile = "constr" -> <<I(0), I(2), B(TRUE), U, Err, L(TInt, <<MkInt(7)>>), L(TInt, <<>>),
+                                Con(MkPair(TInt, TBool, MkInt(4), MkBool(FALSE)))>>
+      [] Profile = "arith" -> <<I(0), I(1), I(0 - 7), I(2), HugeP, HugeN, Err, U,
                                Bi("addInteger"), Bi("subtractInteger"), Bi("multiplyInteger"),
                                Bi("divideInteger"), Bi("modInteger"), Bi("quotientInteger"),
                                Bi("remainderInteger"), Bi("lessThanInteger"), Bi("equalsInteger"),
-                               Bi("lessThanEqualsInteger")}
-      [] Profile = "bytes" -> {I(0), I(1), I(0 - 1), I(256), HugeP, BS(<<>>), BS(<<1, 255>>),
+                               Bi("lessThanEqualsInteger")>>
+      [] Profile = "bytes" -> <<I(0), I(1), I(0 - 1), I(256), HugeP, BS(<<>>), BS(<<1, 255>>),
                                BS(<<0, 1, 2, 3, 4, 5, 6, 7, 8>>), B(TRUE),
                                Bi("appendByteString"), Bi("consByteString"), Bi("sliceByteString"),
                                Bi("lengthOfByteString"), Bi("indexByteString"), Bi("equalsByteString"),
-                               Bi("lessThanByteString"), Bi("lessThanEqualsByteString")}
-      [] Profile = "poly" -> {I(1), B(TRUE), B(FALSE), U, Err, Con(MkStr(<<104, 105>>)),
+                               Bi("lessThanByteString"), Bi("lessThanEqualsByteString")>>
+      [] Profile = "poly" -> <<I(1), B(TRUE), B(FALSE), U, Err, Con(MkStr(<<104, 105>>)),
                               L(TInt, <<MkInt(1), MkInt(2)>>), L(TInt, <<>>),
                               Con(MkPair(TInt, TBool, MkInt(4), MkBool(FALSE))),
                               Bi("ifThenElse"), F1("ifThenElse"), Bi("chooseUnit"), F1("chooseUnit"),
                               Bi("trace"), F1("trace"), Bi("fstPair"), F1("fstPair"), F2("fstPair"),
                               F2("sndPair"), F1("headList"), F1("tailList"), F1("nullList"),
-                              F1("mkCons"), F2("chooseList"), Bi("headList")}
-      [] Profile = "data" -> {I(3), BS(<<9>>), U, D(DI(5)), D(DB(<<1>>)), D(DL(<<DI(1)>>)),
+                              F1("mkCons"), F2("chooseList"), Bi("headList")>>
+      [] Profile = "data" -> <<I(3), BS(<<9>>), U, D(DI(5)), D(DB(<<1>>)), D(DL(<<DI(1)>>)),
                               D(DM(<<<<DI(1), DB(<<>>)>>>>)), D(DC(1, <<DI(2)>>)),
                               L(TData, <<MkData(DI(1))>>), L(TData, <<>>),
                               L(TPair(TData, TData), <<>>),
                               Bi("constrData"), Bi("mapData"), Bi("listData"), Bi("iData"), Bi("bData"),
                               Bi("unConstrData"), Bi("unMapData"), Bi("unListData"), Bi("unIData"),
                               Bi("unBData"), Bi("equalsData"), Bi("mkPairData"), Bi("mkNilData"),
-                              Bi("mkNilPairData"), F1("chooseData")}
-      [] Profile = "bits" -> {I(0), I(1), I(0 - 3), I(9), B(TRUE), B(FALSE), BS(<<>>), BS(<<240, 15>>),
+                              Bi("mkNilPairData"), F1("chooseData")>>
+      [] Profile = "bits" -> <<I(0), I(1), I(0 - 3), I(9), B(TRUE), B(FALSE), BS(<<>>), BS(<<240, 15>>),
                               BS(<<1>>), L(TInt, <<MkInt(0), MkInt(9)>>),
                               Bi("andByteString"), Bi("orByteString"), Bi("xorByteString"),
                               Bi("complementByteString"), Bi("readBit"), Bi("writeBits"),
                               Bi("replicateByte"), Bi("shiftByteString"), Bi("rotateByteString"),
                               Bi("countSetBits"), Bi("findFirstSetBit"), Bi("integerToByteString"),
-                              Bi("byteStringToInteger")}
+                              Bi("byteStringToInteger")>>
 
 MaxScope == 3
 
@@ -94,7 +95,9 @@ Build(n, sc, prev) ==
 
 \* constant-level definitions: TLC evaluates each of them once
 Scopes == 0..MaxScope
-L1 == [sc \in 1..(MaxScope + 1) |-> Atoms \cup VarsAt(sc - 1) \cup {Constr(0, <<>>)}]
+\* inside the enumerated sets an atom is only its index; Expand puts the term back
+AtomRef(j) == [k |-> "atom", j |-> j]
+L1 == [sc \in 1..(MaxScope + 1) |-> {AtomRef(j) : j \in 1..Len(AtomSeq)} \cup VarsAt(sc - 1) \cup {Constr(0, <<>>)}]
 L2 == [sc \in 1..(MaxScope + 1) |-> Build(2, sc - 1, <<L1>>)]
 L3 == [sc \in 1..(MaxScope + 1) |-> Build(3, sc - 1, <<L1, L2>>)]
 L4 == [sc \in 1..(MaxScope + 1) |-> Build(4, sc - 1, <<L1, L2, L3>>)]
@@ -130,12 +133,23 @@ ClosureTerms == {App(Lam(o), c) : o \in Outer, c \in Clos1 \cup Clos2}
                 \cup {App(App(Lam(Lam(o)), c), d) : o \in {Lam(V3), Lam(V2), Delay(Constr(0, <<V1, V2>>)), Lam(App(V3, V2))},
                                                     c \in Clos1, d \in {I(9), Lam(V1)}}
 
+RECURSIVE Expand(_)
+Expand(t) ==
+    CASE t.k = "atom"   -> AtomSeq[t.j]
+      [] t.k = "lam"    -> Lam(Expand(t.b))
+      [] t.k = "delay"  -> Delay(Expand(t.b))
+      [] t.k = "force"  -> Force(Expand(t.b))
+      [] t.k = "app"    -> App(Expand(t.f), Expand(t.a))
+      [] t.k = "constr" -> Constr(t.tag, [i \in 1..Len(t.fs) |-> Expand(t.fs[i])])
+      [] t.k = "case"   -> Case(Expand(t.s), [i \in 1..Len(t.bs) |-> Expand(t.bs[i])])
+      [] OTHER -> t
+
 VARIABLES st, t0
 vars == <<st, t0>>
 
 Init == \E n \in 1..N : \E t \in (IF Profile = "closure" THEN (IF n = 1 THEN ClosureTerms ELSE {}) ELSE TS(n, 0)) : \E s \in Sems :
-            /\ t0 = t
-            /\ st = InitState(t, s)
+            /\ t0 = Expand(t)
+            /\ st = InitState(Expand(t), s)
 
 Next == /\ ~Terminal(st)
         /\ st' = IF st.n >= MaxSteps THEN Unknown(st, "steps") ELSE Step(st)
